@@ -230,6 +230,11 @@ def all_statements(lg):
             yield n["stmt"], st, n["how"]
 
 
+def _ltext(it):
+    """text returned by a lazily evaluated callable: every second one is longer than a small-string buffer"""
+    return "L%d" % it["id"] if it["id"] % 2 else "L%d-a-text-longer-than-the-small-string-buffer" % it["id"]
+
+
 def item_text(it):
     k, v = it["kind"], it["v"]
     if k in ("lit", "str"):
@@ -241,7 +246,7 @@ def item_text(it):
     if k == "chr":
         return v
     if k in ("lazy", "fn", "fptr", "fref"):
-        return "L%d" % it["id"]
+        return _ltext(it)
     if k in ("cbuf", "ccbuf", "cstr", "sv"):
         return v
     if k in ("uns", "boolv"):
@@ -274,7 +279,7 @@ def item_cpp(it):
     if k == "chr":
         return "'%s'" % v
     if k == "lazy":
-        return '[] { ev("LAZY %d"); return std::string("L%d"); }' % (it["id"], it["id"])
+        return '[] { ev("LAZY %d"); return std::string("%s"); }' % (it["id"], _ltext(it))
     if k == "lazyp":
         return '[]() -> const char* { ev("LAZY %d"); return "P%d"; }' % (it["id"], it["id"])
     if k == "fptr":
@@ -296,7 +301,7 @@ def item_cpp(it):
     if k == "flt":
         return "%rf" % float(v)
     if k == "fn":
-        return 'std::function<std::string()>([] { ev("LAZY %d"); return std::string("L%d"); })' % (it["id"], it["id"])
+        return 'std::function<std::string()>([] { ev("LAZY %d"); return std::string("%s"); })' % (it["id"], _ltext(it))
     if k == "lazylog":
         return '[] { ev("LAZY %d"); %s return std::string("G%d"); }' % (it["id"], it["_code"], it["id"])
     if k == "hexint":
@@ -395,7 +400,7 @@ def source(prog):
         for st, _, _ in all_statements(lg):
             for it in st["items"]:
                 if it["kind"] in ("fptr", "fref"):
-                    A('static std::string lazyfn_%d() { ev("LAZY %d"); return std::string("L%d"); }' % ((it["id"],) * 3))
+                    A('static std::string lazyfn_%d() { ev("LAZY %d"); return std::string("%s"); }' % (it["id"], it["id"], _ltext(it)))
                 elif it["kind"] == "cbuf":
                     A('static char cbuf_%d[32] = "%s";' % (it["id"], it["v"]))
                 elif it["kind"] == "ccbuf":
